@@ -55,9 +55,15 @@ func (r *Result) add(rule, construct string, st Status, pos, detail string) {
 	r.Obls = append(r.Obls, Obligation{Rule: rule, Construct: construct, Status: st, Pos: pos, Detail: detail})
 }
 
-func (r *Result) ok(rule, construct, pos, detail string)  { r.add(rule, construct, Discharged, pos, detail) }
-func (r *Result) bad(rule, construct, pos, detail string) { r.add(rule, construct, Violated, pos, detail) }
-func (r *Result) und(rule, construct, pos, detail string) { r.add(rule, construct, Undecided, pos, detail) }
+func (r *Result) ok(rule, construct, pos, detail string) {
+	r.add(rule, construct, Discharged, pos, detail)
+}
+func (r *Result) bad(rule, construct, pos, detail string) {
+	r.add(rule, construct, Violated, pos, detail)
+}
+func (r *Result) und(rule, construct, pos, detail string) {
+	r.add(rule, construct, Undecided, pos, detail)
+}
 
 // ---- known findings ----
 
